@@ -36,6 +36,9 @@ def main():
         r = sh("cd %s && /venv/bin/python -m pytest -q -p no:cacheprovider 2>&1 | tail -1" % scratch, env=env)
         out["baseline_tests"] = r.stdout.strip()
         out["checks"] = {}
+        prev = os.path.join(VERIF, "benign", name, "meta.json")
+        if os.path.exists(prev):        # keep the results of earlier runs of other checks
+            out["checks"] = json.load(open(prev)).get("checks", {})
         for c in checks:
             t0 = time.time()
             e = dict(os.environ, VERIF_REPO=scratch, VERIF_SEED=os.environ.get("VERIF_SEED", "0"))
